@@ -2,10 +2,10 @@ import NutilsVerif.Model.C19
 /-!
 # C19 — source ASTs of the documented grammar, their printer and their direct elaboration  (no Mathlib)
 
-`Src` is the abstract syntax of the grammar *without function calls and decimal numbers*: sums (optional leading
+`Src` is the abstract syntax of the documented grammar: sums (optional leading
 minus, `+` / `-`) of fractions ` / ` of products (juxtaposition) of powers `^` (signed integer or parenthesised
-exponent) of items; an item is an unsigned integer, a variable with indices (letters and single numerals) or a
-parenthesised / jump / mean expression.  Lists are encoded in the tree (`pnil` / `pcons` for the factors after the
+exponent) of items; an item is an unsigned integer or decimal number, a variable with indices (letters and single numerals), a
+parenthesised / jump / mean expression or a function call with indices for generated axes.  Lists are encoded in the tree (`pnil` / `pcons` for the factors after the
 first, `tnil` / `tcons` for the terms after the first), so that plain structural induction applies.
 
 * `print : Src → List Char` is the canonical printing (single blanks, ` + `, ` - `, ` / `, no padding);
@@ -19,10 +19,12 @@ namespace NutilsVerif.C19
 
 inductive Src where
   | num (ds : List Nat)                        -- decimal digits, most significant first
+  | dec (ip : List Nat) (fp : Option (List Nat)) (ex : Option (Bool × List Nat))   -- `ip[.fp][e[-]ex]`, not an integer
   | var (name : Name) (idx : List Char)        -- `name` or `name_idx`
   | paren (e : Src)                            -- `(e)`
   | jump (e : Src)                             -- `[e]`
   | mean (e : Src)                             -- `{e}`
+  | call (name : Name) (idx : List Char) (arg : Src)   -- `name(arg)` or `name_idx(arg)`: generated axes `idx`
   | powInt (b : Src) (neg : Bool) (ds : List Nat)   -- `b^ds`, `b^-ds`
   | powExpr (b : Src) (e : Src)                -- `b^(e)`
   | prod (f : Src) (tail : Src)                -- a term: first factor and the chain of the others
@@ -36,12 +38,28 @@ deriving Repr, Inhabited
 
 def digitChar (d : Nat) : Char := Char.ofNat (48 + d)
 
+/-- the text of a signed integer exponent -/
+def expoText (neg : Bool) (ds : List Nat) : List Char := (if neg then ['-'] else []) ++ ds.map digitChar
+
+/-- integer part and optional fractional part of a decimal literal -/
+def numText (ip : List Nat) (fp : Option (List Nat)) : List Char :=
+  ip.map digitChar ++ (match fp with | none => [] | some f => '.' :: f.map digitChar)
+
+/-- optional exponent of a decimal literal -/
+def expSuffix (ex : Option (Bool × List Nat)) : List Char :=
+  match ex with | none => [] | some (neg, ds) => 'e' :: expoText neg ds
+
+def decText (ip : List Nat) (fp : Option (List Nat)) (ex : Option (Bool × List Nat)) : List Char :=
+  numText ip fp ++ expSuffix ex
+
 def Src.print : Src → List Char
   | .num ds => ds.map digitChar
+  | .dec ip fp ex => decText ip fp ex
   | .var name idx => name ++ (if idx.isEmpty then [] else '_' :: idx)
   | .paren e => '(' :: e.print ++ [')']
   | .jump e => '[' :: e.print ++ [']']
   | .mean e => '{' :: e.print ++ ['}']
+  | .call name idx arg => (name ++ (if idx.isEmpty then [] else '_' :: idx)) ++ ('(' :: arg.print ++ [')'])
   | .powInt b neg ds => b.print ++ '^' :: ((if neg then ['-'] else []) ++ ds.map digitChar)
   | .powExpr b e => b.print ++ '^' :: ('(' :: e.print ++ [')'])
   | .prod f tail => f.print ++ tail.print
@@ -67,21 +85,38 @@ def idxChar (c : Char) : Bool := isDigit c || ('a' ≤ c && c ≤ 'z')
 
 def digitsOK (ds : List Nat) : Bool := !ds.isEmpty && ds.all (· < 10)
 
+/-- a decimal literal in python syntax that is not an integer literal: `1.5`, `.5`, `2.`, `1e1`, `2.5e-1` -/
+def decOK (ip : List Nat) (fp : Option (List Nat)) (ex : Option (Bool × List Nat)) : Bool :=
+  ip.all (· < 10) &&
+  (match fp with
+   | none => !ip.isEmpty && ex.isSome
+   | some f => f.all (· < 10) && !(ip.isEmpty && f.isEmpty)) &&
+  (match ex with | none => true | some (_, ds) => digitsOK ds)
+
+/-- value of a decimal literal: mantissa digits and decimal exponent -/
+def decValue (ip : List Nat) (fp : Option (List Nat)) (ex : Option (Bool × List Nat)) : Nat × Int :=
+  (digitsVal (ip ++ fp.getD []),
+   (match ex with | none => (0 : Int) | some (neg, ds) => if neg then - (digitsVal ds : Int) else (digitsVal ds : Int)) - ((fp.getD []).length : Int))
+
 inductive Kind where
   | item | power | ptail | term | frac | ttail | expr
 deriving Repr, DecidableEq
 
 def Src.ok : Kind → Src → Bool
   | .item, .num ds => digitsOK ds
+  | .item, .dec ip fp ex => decOK ip fp ex
   | .item, .var name idx => nameOK name && idx.all idxChar
   | .item, .paren e => e.ok .expr
   | .item, .jump e => e.ok .expr
   | .item, .mean e => e.ok .expr
+  | .item, .call name idx arg => nameOK name && idx.all idxChar && arg.ok .expr
   | .power, .num ds => digitsOK ds
+  | .power, .dec ip fp ex => decOK ip fp ex
   | .power, .var name idx => nameOK name && idx.all idxChar
   | .power, .paren e => e.ok .expr
   | .power, .jump e => e.ok .expr
   | .power, .mean e => e.ok .expr
+  | .power, .call name idx arg => nameOK name && idx.all idxChar && arg.ok .expr
   | .power, .powInt b _ ds => b.ok .item && digitsOK ds
   | .power, .powExpr b e => b.ok .item && e.ok .expr
   | .ptail, .pnil => true
@@ -119,6 +154,8 @@ mutual
 /-- an item or a power, as `parse_power` / `parse_item` treat it -/
 def elabPower (Γ : Ctx) : Src → Bool → Option Res
   | .num ds, allowNumber => if allowNumber then some ⟨.int (digitsVal ds), [], [], []⟩ else none
+  | .dec ip fp ex, allowNumber =>
+    if allowNumber then some ⟨.float (decValue ip fp ex).1 (decValue ip fp ex).2, [], [], []⟩ else none
   | .var name idx, _ =>
     match Γ.lookupVar name with
     | none => none
@@ -128,6 +165,14 @@ def elabPower (Γ : Ctx) : Src → Bool → Option Res
   | .paren e, _ => (elabExpr Γ e).map fun r => { r with ops := .scope r.ops }
   | .jump e, _ => (elabExpr Γ e).map fun r => { r with ops := .jump r.ops }
   | .mean e, _ => (elabExpr Γ e).map fun r => { r with ops := .mean r.ops }
+  | .call name idx arg, _ =>
+    (elabExpr Γ arg).bind fun a =>
+      match Γ.lookupFn name with
+      | none => none
+      | some gen =>
+        if gen.length != idx.length then none
+        else (toOpt (genIndicesGo (.call name idx.length a.ops) (a.shape ++ gen) a.indices ⟨0, idx⟩)).bind fun g =>
+          toOpt (trace noSub g.1 g.2.1 g.2.2 [a.summed])
   | .powInt b neg ds, a =>
     (elabPower Γ b a).bind fun base =>
       scalarCombine .pow base ⟨.int (if neg then - (digitsVal ds : Int) else (digitsVal ds : Int)), [], [], []⟩
